@@ -118,6 +118,18 @@ func latticeCfgs() []rendCfg {
 	}
 }
 
+// configurations whose viewBox-to-pixel scale is not dyadic (compared within a tolerance, never for equality)
+func approxCfgs() []rendCfg {
+	return []rendCfg{
+		{[4]float32{-24, -24, 24, 24}, image.Rect(0, 0, 100, 100)},
+		{[4]float32{0, 0, 48, 48}, image.Rect(2, 3, 20, 21)},
+		{[4]float32{-32, -32, 32, 32}, image.Rect(0, 0, 100, 75)},
+		{[4]float32{-10, 5, 30, 25}, image.Rect(7, 3, 7+123, 3+77)},
+		{[4]float32{-32, -32, 32, 32}, image.Rect(0, 0, 600, 600)},
+		{[4]float32{-1, -1, 6, 2}, image.Rect(0, 0, 333, 200)},
+	}
+}
+
 func init() { register("drive-rend", driveRend) }
 
 func driveRend(args []string) error {
@@ -159,6 +171,11 @@ func driveRend(args []string) error {
 			rng := newRand(201)
 			for i := 0; i < *n; i++ {
 				cfg := cfgs[i%len(cfgs)]
+				if i%3 == 2 {
+					ac := approxCfgs()
+					cfg = ac[i/3%len(ac)]
+					stats[fam+".nondyadic_scale"]++
+				}
 				viaRasterLogger = i%5 == 4
 				o := &progOpts{maxPaths: 3, maxRun: 4, lattice: true, arcs: fam == "arcs" || i%4 == 0}
 				prog := genProgram(rng, o)
@@ -222,6 +239,11 @@ func driveRend(args []string) error {
 				rect := image.Rect(0, 0, int(dx)*2, int(dy)*2)
 				if gi%2 == 1 {
 					rect = image.Rect(3, 5, 3+int(dx)*4, 5+int(dy)*4)
+				}
+				if gi%3 == 2 { // sizes such as 24, 18, 100: non-dyadic scales
+					sz := []int{24, 18, 100, 37, 256, 64}[gi/3%6]
+					rect = image.Rect(1, 2, 1+sz, 2+sz*3/4+1)
+					stats["corpus.nondyadic_scale"]++
 				}
 				t := newTracedRenderer(sh.Next(), "corpus/"+g.Name, rect)
 				var rec Recorder
